@@ -405,14 +405,30 @@ def check_substitution(col: Collector, repo: Repo, rule: str):
     adds = [c for c in walk_no_nested(em.node) if isinstance(c, ast.Call) and call_name(c) == "add_line"]
     # ... and the `;` is added exactly when the line does not already end in one (a line ending in `}` is still a statement when it is a
     # brace initialiser or a lambda)
-    pme = parent_map(em.node)
-    semis = [n for n in walk_no_nested(em.node) if (isinstance(n, ast.AugAssign) and const_str(n.value) == ";")
-             or (isinstance(n, ast.Assign) and isinstance(n.value, ast.BinOp) and const_str(n.value.right) == ";")]
-    sg = [(src(t), tr_) for n in semis for t, tr_ in guards(em.node, n, pme)]
-    ok_semi = len(semis) == 1 and len(sg) == 1 and (not sg[0][1]) and _re.fullmatch(r"\w+\.endswith\((';'|\";\")\)", sg[0][0]) is not None
-    col.add(rule, em.short, "terminator-added-exactly-when-missing", ok_semi,
-            f"`;` must be appended under `not <line>.endswith(';')` and nothing else (found {sg})", em.loc)
-    col.add(rule, em.short, "injected-line-emitted-whole", not cuts and len(adds) == 1,
+    # decided per path on what add_line finally receives (locals substituted): the stored line itself where it already ends in `;`,
+    # the stored line + ";" where it does not - however the two cases are spelled (a local that is extended, an if/else of two calls ...)
+    from sa.core.paths import substituted_paths
+    sg = []
+    ok_semi = True
+    one_each = True
+    for items in substituted_paths(em.node):
+        calls = [c for k, c, *_ in items if k == "call" and call_name(c) == "add_line"]
+        conds = {(src(t).replace('"', "'"), tr_) for k, t, *r in items if k == "cond" for tr_ in r}
+        if len(calls) != 1:
+            one_each = False
+            continue
+        a = src(calls[0].args[0]).replace('"', "'") if calls[0].args else "?"
+        sg.append((a, sorted(conds)))
+        base = a[:-len(" + ';'")] if a.endswith(" + ';'") else a
+        if a.endswith(" + ';'"):
+            ok_semi = ok_semi and conds == {(f"{base}.endswith(';')", False)}
+        else:
+            ok_semi = ok_semi and conds == {(f"{base}.endswith(';')", True)}
+        ok_semi = ok_semi and _re.fullmatch(r"self\.\w+", base) is not None
+    ok_semi = ok_semi and len(sg) == 2
+    col.add(rule, em.short, "terminator-added-exactly-when-missing", ok_semi and one_each,
+            f"`;` must be appended exactly when the stored line does not end in one, and nothing else happens to it (per path: {sg})", em.loc)
+    col.add(rule, em.short, "injected-line-emitted-whole", not cuts and one_each,
             f"the line carries the actual arguments already pasted in (string constants included): cutting or splitting it on C++ syntax such as `//` "
             f"cannot tell code from the inside of a string literal (found {cuts}; add_line calls: {len(adds)})", em.loc)
 
